@@ -18,6 +18,7 @@ PY
 if ! git apply $SD/patch.diff; then res $SD/confirm.json applies=false; cd /; git -C /repo worktree remove --force $WT; exit 1; fi
 go build ./... || { res $SD/confirm.json applies=true builds=false; cd /; git -C /repo worktree remove --force $WT; exit 1; }
 suite=pass
+rm -f /tmp/cs-$ID.stuck
 out=$(go test -vet=off -count=1 -timeout 25m ./... 2>&1)
 failed=$(echo "$out" | grep -E '^(FAIL|---)' | grep -E '^FAIL\s' | awk '{print $2}' | sort -u)
 for p in $failed; do
@@ -35,7 +36,7 @@ for p in $failed; do
       for i in 1 2 3 4 5 6; do
         if go test -vet=off -count=1 -timeout 25m -run "^$tname\$" $p >/tmp/cs-$ID.retry1 2>&1; then tok=1; break; fi
       done
-      [ $tok = 0 ] && ok=0 && echo "test $tname of $p fails alone 6/6"
+      if [ $tok = 0 ]; then ok=0; echo "test $tname of $p fails alone 6/6"; echo "$p $tname" >> /tmp/cs-$ID.stuck; fi
     done
     grep -qE '^--- FAIL: ' /tmp/cs-$ID.retry || ok=0
   fi
@@ -49,6 +50,21 @@ cp $SD/$(basename $DEMO) $WT/$PLACE
 with=0
 for i in 1 2 3; do if ! (cd $WT && eval "$CMD" >/tmp/cs-$ID.demo 2>&1); then with=$((with+1)); fi; done
 git apply -R $SD/patch.diff
+# tests that failed alone 6/6 with the change: if they fail just as consistently on the unchanged tree
+# right now (machine load), they say nothing about the change
+if [ -f /tmp/cs-$ID.stuck ] && [ "${suite#fail:}" != "$suite" ]; then
+  allflaky=1
+  while read p tname; do
+    pok=0
+    for i in 1 2 3; do
+      if go test -vet=off -count=1 -timeout 25m -run "^$tname\$" $p >/dev/null 2>&1; then pok=1; break; fi
+    done
+    [ $pok = 1 ] && allflaky=0
+  done < /tmp/cs-$ID.stuck
+  # only excuse the failure if every package failure was attributed to such tests
+  nstuck=$(cut -d' ' -f1 /tmp/cs-$ID.stuck | sort -u | wc -l)
+  if [ $allflaky = 1 ] && [ $nstuck -ge 1 ]; then suite="pass-modulo-load:$(cut -d' ' -f2 /tmp/cs-$ID.stuck | sort -u | tr '\n' ',')fail-3/3-on-the-unchanged-tree-too"; fi
+fi
 without=0
 for i in 1 2 3; do if (cd $WT && eval "$CMD" >/tmp/cs-$ID.demo2 2>&1); then without=$((without+1)); fi; done
 res $SD/confirm.json applies=true builds=true suite_with_change=$suite demo_fails_with_change=$with/3 demo_passes_without_change=$without/3 base=$(git -C /repo rev-parse --short HEAD)
